@@ -614,6 +614,47 @@ pub fn run(ctx: &Ctx) {
             }
         }
     }
+    // LARGE keyrings (beyond 1 MiB; thorough beyond 16 MiB): the sender's entry - and, separately, the recipient's - is
+    // the very last one. The outcome is the same as with a three-entry keyring: exit 0, complete plaintext, sender named;
+    // with -k and with KESTREL_KEYRING
+    {
+        let dir = w.wd.path.join("bigring");
+        let _ = std::fs::create_dir_all(&dir);
+        let pt = &pts[1].1;
+        let f = refspec::encode_key_file(&a.sk, &a.pk, &b.pk, &rng.arr32(), &rng.arr32(), pt, &[pt.len()]).unwrap();
+        std::fs::write(dir.join("f.ktl"), &f).unwrap();
+        for (size_name, contacts) in ctx.tier.pick(vec![("about 1.2 MiB", 13_500usize)], vec![("about 1.2 MiB", 13_500usize), ("about 17 MiB", 190_000)]) {
+            let mut filler = String::new();
+            for i in 0..contacts {
+                filler.push_str(&format!("[Key]\nName = contact-{:06}\nPublicKey = {}\n\n", i, refspec::encode_pk(&refspec::pubkey_of(&rng.arr32()))));
+            }
+            for (layout, kr) in [("sender last", format!("{}\n{}{}", b.entry(true), filler, a.entry(false))), ("recipient last", format!("{}\n{}{}", a.entry(false), filler, b.entry(true)))] {
+                std::fs::write(dir.join("big.txt"), &kr).unwrap();
+                for via_env in [false, true] {
+                    let mut args = vec!["decrypt", "f.ktl", "-t", b.name.as_str(), "--env-pass"];
+                    if !via_env {
+                        args.extend_from_slice(&["-k", "big.txt"]);
+                    }
+                    let mut c = Cmd::new(&dir, &args).pass(&b.password);
+                    if via_env {
+                        c = c.env("KESTREL_KEYRING", "big.txt");
+                    }
+                    let o = c.run();
+                    ctx.eval();
+                    let err = o.stderr_s();
+                    let named: Option<String> = err.lines().find_map(|l| l.split("File from: ").nth(1)).map(|x| x.trim().to_string());
+                    if o.exit == Exit::Timeout {
+                        ctx.inconclusive("C12: timeout");
+                    } else if o.exit == Exit::Code(0) && o.stdout == *pt && named.as_deref() == Some(a.name.as_str()) {
+                        ctx.seen("large keyring: same outcome as a small one (exit 0, plaintext, sender named)");
+                        ctx.distinct(&format!("bigring|{}|{}|{}", size_name, layout, via_env));
+                    } else {
+                        ctx.violation("C12:outcome-depends-on-the-size-of-the-keyring", json!({"keyring_bytes": kr.len(), "layout": layout, "keyring_given_by": if via_env { "KESTREL_KEYRING" } else { "-k" }, "exit": o.exit.describe(), "stderr": err.chars().take(400).collect::<String>(), "output_len": o.stdout.len()}));
+                    }
+                }
+            }
+        }
+    }
     // an explicit -k must not be overridden by a stale KESTREL_KEYRING
     {
         let dir = w.wd.path.join("both");
